@@ -422,7 +422,7 @@ impl Check for LinkRouting {
             case.mock_mask & (1 << bit) != 0
         }).collect();
         let rt = tokio::runtime::Builder::new_current_thread().enable_time().start_paused(true).build().expect("runtime");
-        let outcome: Result<(u32, u32), (String, String)> = rt.block_on(async {
+        let outcome: Result<(u32, u32, bool), (String, String)> = rt.block_on(async {
             let mut builder = ExecutionBuilder::new(&indexed);
             for (e, ex) in indexed.exchanges().iter().enumerate() {
                 if !mocked[e] {
@@ -518,10 +518,60 @@ impl Check for LinkRouting {
                     return Err(("request-unanswered".to_string(), format!("probe {n} for instrument {} sent through the link of exchange index {} ({}): {answered} order responses within 1.2 s (events {events:?})", inst.key.index(), e.index(), inst.value.exchange.value)));
                 }
             }
-            Ok((routed, absent))
+            // ---- burst: the same probes again, all in flight together; different instruments share
+            // one client order id (ids are unique per instrument only) --------------------------------
+            let mut sent_keys: Vec<OrderKey> = Vec::new();
+            for (n, (sel, buy)) in case.probes.iter().enumerate() {
+                let inst = &indexed.instruments()[(*sel as usize * indexed.instruments().len()) >> 16];
+                let e = inst.value.exchange.key;
+                let Ok(tx) = execution.execution_txs.find(&e) else { continue };
+                let shared = OrderKey { exchange: e, instrument: inst.key, strategy: StrategyId::new("s"), cid: ClientOrderId::new("burst") };
+                let key = if sent_keys.contains(&shared) { OrderKey { cid: ClientOrderId::new(format!("burst-{n}")), ..shared } } else { shared };
+                let request = OrderRequestOpen { key: key.clone(), state: RequestOpen { side: if *buy { Side::Buy } else { Side::Sell }, price: Decimal::from(10), quantity: Decimal::ONE, kind: OrderKind::Market, time_in_force: TimeInForce::ImmediateOrCancel } };
+                if tx.send(ExecutionRequest::Open(request)).is_err() {
+                    return Err(("link-closed".to_string(), format!("the execution link of exchange index {} does not accept requests", e.index())));
+                }
+                sent_keys.push(key);
+            }
+            let events = drain(&mut rx, 1500).await;
+            let mut answered: Vec<OrderKey> = Vec::new();
+            let mut filled: Vec<InstrumentIndex> = Vec::new();
+            for ev in &events {
+                let AccountStreamEvent::Item(a) = ev else { continue };
+                match &a.kind {
+                    AccountEventKind::OrderSnapshot(s) => {
+                        if a.exchange != s.0.key.exchange || !matches!(s.0.state, OrderState::Active(_) | OrderState::Inactive(barter_execution::order::state::InactiveOrderState::FullyFilled)) {
+                            return Err(("burst-response".to_string(), format!("burst of {} requests in flight together: response {a:?}", sent_keys.len())));
+                        }
+                        answered.push(s.0.key.clone());
+                    }
+                    AccountEventKind::Trade(t) => {
+                        if a.exchange != indexed.instruments()[t.instrument.index()].value.exchange.key {
+                            return Err(("burst-fill-exchange".to_string(), format!("fill for instrument {} arrives with exchange index {}", t.instrument.index(), a.exchange.index())));
+                        }
+                        filled.push(t.instrument);
+                    }
+                    _ => {}
+                }
+            }
+            let sort_keys = |mut v: Vec<OrderKey>| { v.sort_by_key(|k| (k.instrument.index(), k.cid.0.to_string())); v };
+            let (want, got) = (sort_keys(sent_keys.clone()), sort_keys(answered));
+            if want != got {
+                return Err(("burst-responses".to_string(), format!("{} requests in flight together (instruments sharing the client order id 'burst'): responses carry keys {got:?}, requests were {want:?}", want.len())));
+            }
+            let mut want_fills: Vec<usize> = sent_keys.iter().map(|k| k.instrument.index()).collect();
+            let mut got_fills: Vec<usize> = filled.iter().map(|i| i.index()).collect();
+            want_fills.sort();
+            got_fills.sort();
+            if want_fills != got_fills {
+                return Err(("burst-fills".to_string(), format!("burst: fills reported for instruments {got_fills:?}, orders were for {want_fills:?}")));
+            }
+            let shared_cid = sent_keys.iter().filter(|k| k.cid.0 == "burst").count() >= 2;
+            Ok((routed, absent, shared_cid))
         });
         match outcome {
-            Ok((routed, absent)) => {
+            Ok((routed, absent, shared_cid)) => {
+                rep.class_if(shared_cid, "requests_in_flight_together_sharing_a_client_order_id");
                 let first_mocked = mocked.iter().position(|m| *m);
                 rep.class_if(routed > 0, "request_routed_through_link");
                 rep.class_if(absent > 0, "probe_for_data_only_exchange");
@@ -536,7 +586,7 @@ impl Check for LinkRouting {
 }
 
 pub fn run(ctx: &mut Ctx) {
-    ctx.rule = "index_name_translation: 1..9|14 instrument definitions over 1..4 exchanges (exchange instrument names such as BTCUSDT and asset names deliberately shared between exchanges); for EVERY exchange's map and EVERY global instrument/asset index (own and foreign): index->name, name->index, outbound request translation, inbound translation of order snapshot / rejected order / cancel response / trade / full snapshot / balance, and application to EngineState. non-trivial = >= 2 exchanges and a probed own index lies on an exchange whose first global index is > 0 (global index != per-exchange position); distinct by hash of the case. link_routing: 2..6|10 spot instruments over 2..4 exchanges, a generated subset of the exchanges gets a mock execution link (the rest are data-only); the layer is assembled with ExecutionBuilder and initialised on a paused runtime; every initial account snapshot must carry its own exchange index and asset indices; 1..5 market orders are sent through execution_txs.find(exchange index of the instrument) and the response, fill and balance events must come back with that exchange index / instrument index / spent asset index; a data-only exchange index must not resolve. non-trivial = a request routed while a data-only exchange precedes the traded one in index order.".into();
+    ctx.rule = "index_name_translation: 1..9|14 instrument definitions over 1..4 exchanges (exchange instrument names such as BTCUSDT and asset names deliberately shared between exchanges); for EVERY exchange's map and EVERY global instrument/asset index (own and foreign): index->name, name->index, outbound request translation, inbound translation of order snapshot / rejected order / cancel response / trade / full snapshot / balance, and application to EngineState. non-trivial = >= 2 exchanges and a probed own index lies on an exchange whose first global index is > 0 (global index != per-exchange position); distinct by hash of the case. link_routing: 2..6|10 spot instruments over 2..4 exchanges, a generated subset of the exchanges gets a mock execution link (the rest are data-only); the layer is assembled with ExecutionBuilder and initialised on a paused runtime; every initial account snapshot must carry its own exchange index and asset indices; 1..5 market orders are sent through execution_txs.find(exchange index of the instrument) and the response, fill and balance events must come back with that exchange index / instrument index / spent asset index; a data-only exchange index must not resolve; finally the same orders are sent again all at once (in flight together, different instruments sharing one client order id) and the responses / fills must carry exactly the requests' keys. non-trivial = a request routed while a data-only exchange precedes the traded one in index order.".into();
     ctx.assumptions = vec![
         "exchange-side instrument and asset names are unique inside one exchange".into(),
         "unique internal instrument names; one exchange name per (exchange, internal asset name)".into(),
